@@ -317,6 +317,38 @@ pub fn collects(r: &RunResult) -> Vec<Violation> {
     out
 }
 
+/// Relations between the shared collection and its never-modified twin (`==` in all owned/ref
+/// combinations, set relations). Under concurrent writes the answer is whatever a weakly
+/// consistent comparison gives; when nothing in the whole program writes, both sides hold the
+/// pre-populated contents and the answers are fixed. (`map == map` on itself likewise.)
+pub fn relations(p: &Program, r: &RunResult) -> Vec<Violation> {
+    let mut out = Vec::new();
+    let writes = p.threads.iter().flatten().any(|o| {
+        !matches!(
+            o,
+            Op::Get(..) | Op::Contains(..) | Op::GetKV(..) | Op::Len | Op::EqSelf | Op::Rel(_) | Op::IterAll(..) | Op::IterOpen(..) | Op::IterNext(..) | Op::IterClose | Op::Pin | Op::Unpin | Op::Refresh | Op::Flush | Op::Recheck | Op::ParHelp(_)
+        )
+    });
+    if writes {
+        return out;
+    }
+    let empty = p.cfg.prepop.iter().all(|k| p.cfg.preremove.contains(k));
+    for h in &r.history {
+        let want = match (&h.op, p.cfg.set) {
+            (Op::EqSelf, _) => true,
+            (Op::Rel(k), true) if *k == 7 => empty,
+            (Op::Rel(_), _) => true,
+            _ => continue,
+        };
+        if let Res::Bool(got) = h.res {
+            if got != want {
+                out.push(v("wrong-relation", format!("t{} op{} {:?} answered {} on collections that nobody modifies (expected {})", h.thread, h.idx, h.op, got, want)));
+            }
+        }
+    }
+    out
+}
+
 /// C19: `from_par_iter` must produce exactly the supplied keys, each with one of the values
 /// supplied for it (which one is up to the order in which the pool runs the parts).
 pub fn par_collects(r: &RunResult) -> Vec<Violation> {
@@ -924,7 +956,7 @@ pub fn no_growth_on_removal(p: &Program, r: &RunResult) -> Vec<Violation> {
     let removal_only = !reinserting && p.threads.iter().flatten().all(|o| {
         matches!(
             o,
-            Op::Remove(..) | Op::RemoveEntry(..) | Op::Compute(_, CFn::Remove, _) | Op::Retain(..) | Op::RetainForce(..) | Op::Clear | Op::Get(..) | Op::Contains(..) | Op::GetKV(..) | Op::Len | Op::EqSelf | Op::IterAll(..) | Op::IterOpen(..) | Op::IterNext(..) | Op::IterClose | Op::Pin | Op::Unpin | Op::Refresh | Op::Flush | Op::Recheck
+            Op::Remove(..) | Op::RemoveEntry(..) | Op::Compute(_, CFn::Remove, _) | Op::Retain(..) | Op::RetainForce(..) | Op::Clear | Op::Get(..) | Op::Contains(..) | Op::GetKV(..) | Op::Len | Op::EqSelf | Op::Rel(_) | Op::IterAll(..) | Op::IterOpen(..) | Op::IterNext(..) | Op::IterClose | Op::Pin | Op::Unpin | Op::Refresh | Op::Flush | Op::Recheck
         )
     });
     // (site events are not attributed to a collection: a `clone()` builds - and may resize - a
